@@ -22,6 +22,7 @@ import (
 	"strings"
 	"sync"
 	"testing"
+	"time"
 
 	"github.com/AdguardTeam/AdGuardHome/internal/filtering"
 	"github.com/AdguardTeam/AdGuardHome/internal/schedule"
@@ -79,20 +80,40 @@ func (u *c03Unstarted) close() {
 	_ = os.RemoveAll(u.dir)
 }
 
-func c03NewFilter() (f *filtering.DNSFilter, dir string, err error) {
+// c03ProtectionStatus translates a protection state (see c03Lists.Protection).
+func c03ProtectionStatus(state string) (enabled bool, until *time.Time) {
+	switch state {
+	case "off":
+		return false, nil
+	case "paused":
+		t := time.Now().Add(time.Hour)
+
+		return false, &t
+	case "pause-expired":
+		t := time.Now().Add(-time.Hour)
+
+		return false, &t
+	default:
+		return true, nil
+	}
+}
+
+func c03NewFilter(protection string) (f *filtering.DNSFilter, dir string, err error) {
+	enabled, until := c03ProtectionStatus(protection)
 	vkInitOnce.Do(func() { filtering.InitModule() })
 	dir, err = os.MkdirTemp(os.Getenv("VERIF_SCRATCH"), "c03-")
 	if err != nil {
 		return nil, "", err
 	}
 	f, err = filtering.New(&filtering.Config{
-		DataDir:              dir,
-		ProtectionEnabled:    true,
-		FilteringEnabled:     true,
-		BlockingMode:         filtering.BlockingModeDefault,
-		BlockedResponseTTL:   10,
-		BlockedServices:      &filtering.BlockedServices{Schedule: schedule.EmptyWeekly()},
-		ApplyClientFiltering: func(string, netip.Addr, *filtering.Settings) {},
+		DataDir:                 dir,
+		ProtectionEnabled:       enabled,
+		ProtectionDisabledUntil: until,
+		FilteringEnabled:        true,
+		BlockingMode:            filtering.BlockingModeDefault,
+		BlockedResponseTTL:      10,
+		BlockedServices:         &filtering.BlockedServices{Schedule: schedule.EmptyWeekly()},
+		ApplyClientFiltering:    func(string, netip.Addr, *filtering.Settings) {},
 	}, nil)
 	if err != nil {
 		_ = os.RemoveAll(dir)
@@ -107,7 +128,7 @@ func c03NewFilter() (f *filtering.DNSFilter, dir string, err error) {
 // program start.
 func c03Prepare(l *c03Lists, strictSNI bool) (u *c03Unstarted, err error) {
 	handleDDR := l.HandleDDR
-	f, dir, err := c03NewFilter()
+	f, dir, err := c03NewFilter(l.Protection)
 	if err != nil {
 		return nil, err
 	}
@@ -599,6 +620,7 @@ func TestVerifC03Decision(t *testing.T) {
 				viaAPI := j.idx%3 == 2
 				l := c03GenLists(rng, viaAPI)
 				l.HandleDDR = rng.Intn(4) != 0
+				l.Protection = c03ProtectionStates[rng.Intn(len(c03ProtectionStates))]
 				if viaAPI {
 					l.HandleDDR = apiDDR
 				}
@@ -619,6 +641,9 @@ func TestVerifC03Decision(t *testing.T) {
 						continue
 					}
 					u = api
+					// The protection state of a live server is changed the way
+					// the protection API does.
+					api.F.SetProtectionStatus(c03ProtectionStatus(l.Protection))
 					rep.Class("config_via_api_handler")
 				} else {
 					strict = rng.Intn(2) == 0
@@ -650,6 +675,8 @@ func TestVerifC03Decision(t *testing.T) {
 		{"allow_mode_disallowed_entry_ignored", 10}, {"dnscrypt_writer_nil:refused", 20},
 		{"dnscrypt_writer_udp:refused", 20}, {"dnscrypt_writer_tcp:refused", 20},
 		{"doh_two_clientids_decision_depends_on_which_id:strict", 30}, {"doh_two_clientids_decision_depends_on_which_id:lax", 30},
+		{"protection_off:refused_by_name_only", 30}, {"protection_paused:refused_by_name_only", 30},
+		{"protection_pause-expired:refused_by_name_only", 20}, {"protection_paused:admitted", 50},
 		{"special_name:refused", 200}, {"special_name:admitted", 50}, {"ddr_name:refused:handle_ddr=true", 30}, {"ddr_name:refused:handle_ddr=false", 10},
 		{"doh_two_clientids:equal:strict", 10}, {"doh_two_clientids:sni-invalid:strict", 10}} {
 		if n := rep.ClassCount(need.class); n < need.min {
@@ -856,6 +883,10 @@ func c03RunConf(rep *verifkit.Report, rng *rand.Rand, idx int, s *Server, l *c03
 		}
 		if refused {
 			rep.Class(c.Proto + ":refused")
+			rep.Class("protection_" + l.Protection + ":refused")
+			if nameBlocked && !(cv.Specified && cv.Excluded) {
+				rep.Class("protection_" + l.Protection + ":refused_by_name_only")
+			}
 			if c03IsSpecial(c.Name) {
 				rep.Class("special_name:refused")
 				if c03NormName(c.Name) == "_dns.resolver.arpa" {
@@ -888,6 +919,7 @@ func c03RunConf(rep *verifkit.Report, rng *rand.Rand, idx int, s *Server, l *c03
 			continue
 		}
 		rep.Class(c.Proto + ":admitted")
+		rep.Class("protection_" + l.Protection + ":admitted")
 		if c03IsSpecial(c.Name) {
 			rep.Class("special_name:admitted")
 		}
